@@ -9,6 +9,7 @@
 from __future__ import annotations
 
 import copy
+import keyword
 import logging
 import threading
 from collections.abc import Sized
@@ -241,7 +242,11 @@ class RemoteAssertionTraceObserver(ex.RemoteExecutionObserver):
             True, if the attribute should not be asserted on.
         """
         return (
-            field.startswith("_")
+            not isinstance(field, str)
+            # The name becomes part of an attribute path in the rendered assertion.
+            or not field.isidentifier()
+            or keyword.iskeyword(field)
+            or field.startswith("_")
             or field.endswith("__")
             or callable(attr_value)
             or isinstance(attr_value, ModuleType | staticmethod | classmethod | property)
@@ -421,6 +426,9 @@ class RemoteAssertionTraceObserver(ex.RemoteExecutionObserver):
             return False
         if typ.__module__ == "builtins":
             return True
+        if "<locals>" in typ.__qualname__:
+            # A class defined inside a function cannot be named in an expression.
+            return False
         return typ.__module__ == config.configuration.module_name
 
 
